@@ -300,9 +300,10 @@ def compile_props(prop_id, thorough=False):
     out["assumptions_reported"] = len(ax)
     if thorough:
         t0 = time.time()
-        p = subprocess.run(f"timeout 1500 coqchk -silent -o -Q . V V.props.{prop_id} 2>&1 | tail -40", shell=True, cwd=COQ,
+        p = subprocess.run(f"timeout 1500 coqchk -silent -o -Q . V V.props.{prop_id}", shell=True, cwd=COQ,
                            stdout=subprocess.PIPE, stderr=subprocess.STDOUT, text=True)
-        out["coqchk"] = {"s": round(time.time() - t0, 1), "tail": p.stdout[-1500:], "ok": "Modules were successfully checked" in p.stdout}
+        out["coqchk"] = {"s": round(time.time() - t0, 1), "tail": p.stdout[-1500:], "rc": p.returncode,
+                         "ok": p.returncode == 0 and "CONTEXT SUMMARY" in p.stdout}
         out["checker_cmd"] += f" ; coqchk -silent -o -Q . V V.props.{prop_id}"
     return out
 
@@ -476,9 +477,22 @@ def run_check(mod, prop_id, tier, seed, replay=None):
     else:
         ctx.tie_failures.append({"kind": "build", "what": "extracted model does not build against the current source",
                                  "detail": failed_files or build["steps"]})
+        # the relations between public calls need no model: still look for a failing input of the property
+        if hasattr(mod, "run_without_model") and not replay:
+            try:
+                mod.run_without_model(ctx)
+            except Exception:  # noqa: BLE001
+                harness_error = traceback.format_exc()
+    # With every theorem of the property holding for the model, an input on which the implementation differs from a
+    # model that IS the documented formula is a concrete input on which the property fails (modules opt in: TIE_IS_SPEC).
+    if proof_ok and ctx.tie_failures and not ctx.violations and harness_error is None and getattr(mod, "TIE_IS_SPEC", False):
+        for t in ctx.tie_failures[:10]:
+            ctx.violations.append({"kind": "property", "what": "implementation differs from the proved model (= documented formula) at this input: " + t["what"],
+                                   "case": t["case"], "expected": t["model"], "got": t["implementation"]})
     broken = (not proof_ok) or bool(ctx.tie_failures) or harness_error is not None
     searched = False
-    if broken and not ctx.violations and build.get("driver_ok") and harness_error is None and hasattr(mod, "run") and not replay:
+    if broken and not ctx.violations and harness_error is None and not replay and \
+            (build.get("driver_ok") or hasattr(mod, "run_without_model")):
         # the property is no longer shown to hold: search harder for a concrete failing input
         searched = True
         for k in range(3):
@@ -486,7 +500,10 @@ def run_check(mod, prop_id, tier, seed, replay=None):
             c2.deadline = time.time() + budget
             c2.build = build
             try:
-                (getattr(mod, "search", None) or mod.run)(c2)
+                if build.get("driver_ok"):
+                    (getattr(mod, "search", None) or mod.run)(c2)
+                else:
+                    mod.run_without_model(c2)
             except Exception:  # noqa: BLE001
                 pass
             ctx.evaluations += c2.evaluations
